@@ -1,8 +1,15 @@
 #!/bin/sh
-# Offline setup after a fresh restore: nothing is fetched. Warm the Verus cache and pre-build harness crates.
-set -e
+# Offline setup after a fresh restore: nothing is fetched. Warms the Verus cache and pre-builds the harness crates
+# (Kani harness crate, native replay crate, embedded-CPython replay crate) so that the first check is not slow.
 cd "$(dirname "$0")"
 mkdir -p build evidence replays
-python3 extract/extract.py seq build > /dev/null 2>&1 || true
-(cd build && verus seq.rs --triggers-mode silent > /dev/null 2>&1) || true
+export CARGO_NET_OFFLINE=true
+python3 extract/extract.py dense build > /dev/null 2>&1 && (cd build && verus dense.rs --triggers-mode silent > /dev/null 2>&1)
+for c in replay pyreplay; do
+  cp /repo/Cargo.lock $c/Cargo.lock 2>/dev/null
+  (cd $c && CARGO_TARGET_DIR=../build/$c-target cargo build --release --offline -q > ../build/setup-$c.log 2>&1) &
+done
+cp /repo/Cargo.lock kani/Cargo.lock 2>/dev/null
+(cd kani && CARGO_TARGET_DIR=../build/kani-target timeout 900 cargo kani -Z function-contracts -Z stubbing --harness k_c05_symbols_indexing > ../build/setup-kani.log 2>&1) &
+wait
 exit 0
